@@ -825,6 +825,19 @@ def fixed_scenarios(prop):
                     "compress": False, "versions": V, "mode": "same",
                     "events": [["define", 1], ["wrap", 1], _c(1, 1), _c(1, 2), _c(1, 3), ["newprocess"], ["define", 2],
                                ["wrap", 2], cf(2, 1), _c(2, 2), _c(2, 3), _c(2, 1)]})
+        # fixed finding F51 (MemorizedFunc.call stored without comparing or recording the source): (a) the forced call
+        # is the first use of a fresh directory, the next session (edited) checks, then calls; (b) the forced call
+        # of the hot-reloaded function lands next to the older text's record, a fresh session has the older text
+        out.append({"id": "fixed-forced-call-fresh-directory", "type": "c12", "params": [["x", "pk", None]],
+                    "ignore": [], "compress": False, "versions": V, "mode": "same",
+                    "events": [["define", 1], ["wrap", 1], cf(1, 0), ["newprocess"], ["define", 2], ["wrap", 2],
+                               ["check", 2, {"pos": [I(0)], "kw": []}, True], _c(2, 0), _c(2, 0)]})
+        Vh = dict(V, **{"3": dict(V["1"], tag="v2", text=2)})
+        out.append({"id": "fixed-forced-call-hot-reload", "type": "c12", "params": [["x", "pk", None]],
+                    "ignore": [], "compress": False, "versions": Vh, "mode": "same",
+                    "events": [["define", 1], ["wrap", 1], _c(1, 0), _c(1, 1), ["hotreload", 1, 3], cf(3, 0),
+                               ["newprocess"], ["define", 1], ["wrap", 1],
+                               ["check", 1, {"pos": [I(0)], "kw": []}, True], _c(1, 0), _c(1, 1)]})
         # C02-16: two SCRIPTS without a .py suffix in a dotted directory, each with its own __main__ function g, alive
         # at the same time on one cache directory (two function identifiers: model run with one text and disjoint keys)
         Vs = {"1": {"tag": "train", "path": ".local/bin/train", "pad": 0, "kind": "main", "text": 1},
@@ -1217,7 +1230,9 @@ def gen_c12_scenario(rng, sid):
                 nref = sum(1 for e in events if e[0] == "shelve")
                 events += [["shelve", k, cs, True], ["get", nref]]
             if vld and rng.random() < 0.05:
-                events.append(["call", k, dict(cs, via="call"), True])      # MemorizedFunc.call: forced execution
+                # MemorizedFunc.call: forced execution = the code check of an ordinary call, then execute and store
+                # (model: `Call k c false`, the call whose entry the validation rejects)
+                events.append(["call", k, dict(cs, via="call"), True])
             elif vld and rng.random() < 0.12:
                 # memory.eval(f, x): a decoration of its own for this one call; followed by a fresh persistent
                 # wrapper so that model (one wrapper per object) and implementation stay in step
@@ -1595,7 +1610,8 @@ def judge(sc, res):
                         devs.append({"prop": "C02", "kind": "wrong-value", "event": i, "key": version_key(i),
                                      "what": "cached call returned %s, the (edited) plain function returns %s"
                                              % (r["v"], r["expect"])})
-                        devs.append({"prop": "C12", "kind": "wrong-version", "event": i, "key": version_key(i),
+                        devs.append({"prop": "C12", "kind": "wrong-version", "event": i,
+                                     "key": version_key(i),
                                      "what": "call of version %s returned %s, its own code computes %s"
                                              % (k, r["v"], r["expect"])})
                     else:
@@ -1623,11 +1639,8 @@ def judge(sc, res):
             # a call of another text wipes what other texts stored (that is the point of C12)
             for other in [c for c in completed if c[0] != text and not elsewhere(c)]:
                 del completed[other]
-            if forced:
-                # a forced call stores its value without any code check: whether the entry survives the next
-                # ordinary call depends on what func_code.py held -- no expectation either way
-                completed.pop(ck, None)
-                continue
+            # (a forced call is judged like a call whose entry the validation rejects: code check, execute, store --
+            #  fixed finding F51: before the fix it stored without comparing or recording the source)
             completed[ck] = i
             by_args_id.setdefault(r.get("args_id"), set()).add(ck)
         elif t == "get":
@@ -1730,7 +1743,8 @@ def model_terms_loc(sc, res):
             b = "None" if r.get("bind") is None else "(Some (%d, %d))" % (
                 bindc.setdefault(r["bind"], len(bindc)), rbindc.setdefault(r["expect"], len(rbindc)))
             mh.append("At %d (%s %d (%s, %s) %s)" % (loc_base(sc, L), "Call" if t == "call" else "Check",
-                                                     ev[1] * n + L, key, b, "true" if ev[3] else "false"))
+                                                     ev[1] * n + L, key, b,
+                                                     "true" if ev[3] and not is_forced(ev) else "false"))
         elif t == "clearfunc":
             L = ev[2] if len(ev) > 2 else 0
             mh.append("At %d (ClearFunc %d)" % (loc_base(sc, L), ev[1] * n + L))
@@ -1747,14 +1761,17 @@ def model_terms_loc(sc, res):
         {"rbindc": rbindc, "locs": nslots, "sibs": sibs, "expand": expand}
 
 
+def is_forced(ev):
+    """MemorizedFunc.call: the model event is the call whose stored entry is rejected (check the code, execute, store)"""
+    return ev[0] == "call" and ev[2].get("via") == "call"
+
+
 def model_terms(sc, res):
     """Gallina terms (configuration, history) for a scenario, built from what was OBSERVED on the implementation:
     key class = class of the real args_id, binding classes from inspect.signature.bind.
     Returns (cfg, history, decode tables) or None when a harness error makes the scenario unusable."""
     if sc.get("locs"):
         return model_terms_loc(sc, res)
-    if any(e[0] == "call" and e[2].get("via") == "call" for e in sc["events"]):
-        return None      # MemorizedFunc.call (forced execution) has no model event: judged by the oracle only
     evs = res["events"]
     V = sc["versions"]
     kmax = max(int(k) for k in V)
@@ -1797,7 +1814,7 @@ def model_terms(sc, res):
                 b = "(Some (%d, %d))" % (bindc.setdefault(r["bind"], len(bindc)),
                                          rbindc.setdefault(r["expect"], len(rbindc)))
             hist.append("%s %d (%s, %s) %s" % ({"call": "Call", "shelve": "Shelve", "check": "Check"}[t], ev[1],
-                                               key, b, "true" if ev[3] else "false"))
+                                               key, b, "true" if ev[3] and not is_forced(ev) else "false"))
         elif t == "get":
             hist.append("Get %d" % ev[1])
         elif t == "clearref":
